@@ -50,6 +50,7 @@ func runC15(c *hx.Ctx) {
 	for _, w := range []int{2, 3, 4} {
 		resumeOrder(o, c, w)
 	}
+	runFlowC15(o, c) // r5_flow_resume.go
 	wrapResend(o, c)
 	takeoverOrder(o, c)
 	slowFirstPublish(o, c)
